@@ -272,6 +272,7 @@ class gclmulchunker(ChunkerAdapter):
         chunker = _replicat_adapters._gclmulchunker(
             self.min_length, self.max_length, params
         )
+        slack = -self.max_length % self.alignment
         buffer = bytearray()
         it = iter(chunk_iterator)
         chunk = next(it, None)
@@ -281,6 +282,12 @@ class gclmulchunker(ChunkerAdapter):
             next_chunk = next(it, None)
 
             while True:
+                # The extension looks at whole 8-byte windows: when max_length is not
+                # a multiple of the alignment, wait for the few extra bytes that the
+                # last window needs instead of letting it read past the buffer
+                if next_chunk is not None and len(buffer) < self.max_length + slack:
+                    break
+
                 pos = chunker.next_cut(buffer, bool(next_chunk is None))
                 if not pos:
                     break
